@@ -9,7 +9,9 @@ from .. import core
 
 LEVEL = "proof"
 EXPLANATION = ("Sequential refinement, invariants and iteration completeness are Coq theorems about Dict/Model.v, which is compared "
-               "with the real code exactly (M1). Linearizability under concurrent mutation is searched, not proved; the search reproduces "
+               "with the real code exactly (M1). The insert-only concurrent class {put_if_absent, get} has a micro-step machine (Dict/Micro.v) with "
+               "theorems for every schedule (ins_inv, pia_result, pia_unique, get_sound) and is replayed against the real code at the "
+               "interposed schedule points (M3). Linearizability with delete / replacing put is searched, not proved; the search reproduces "
                "the open findings concurrent-replacing-put / concurrent-delete-reclaim / concurrent-delete-vs-put on every run.")
 M64 = (1 << 64) - 1
 HKINDS = {0: "identity", 1: "constant", 2: "low-2-bits", 3: "negated", 4: "multiplicative(int, may be negative)",
@@ -465,6 +467,169 @@ def minimise_conc(exe, c, env, key, spin, tries=3, budget_s=12.0):
 
 
 # ----------------------------------------------------------------------------------------------------------------
+# M3: insert-only runs on 1x1 replayed against the extracted micro-step machine (Dict/Micro.v)
+# ----------------------------------------------------------------------------------------------------------------
+M63 = (1 << 63) - 1
+
+
+def rev64(x):
+    return int(format(x & M64, "064b")[::-1], 2)
+
+
+def gen_micro(rng):
+    if rng.chance(2, 5):
+        # a collision chain in bucket 0 with the dummy of bucket 1 right behind it: an insert at the end of the chain while a
+        # searcher waits in the equals callback of its last node makes the searcher's `*prev != cur` re-check fail (re-search)
+        kind = 2
+        keys = [1] + [4 * i for i in range(1, rng.range(2, 5) + 1)]
+    else:
+        kind = rng.choice([0, 1, 1, 2, 3, 4, 7, 8, 9])
+        keys = list(range(1, rng.choice([1, 2, 2, 3, 4, 6]) + 1))
+    setup = []
+    for k in keys:
+        setup.append(("g", k, 0))
+        if rng.chance(1, 3):
+            setup.append(("a", k, 50 + k))
+    setup = rng.shuffle(setup)
+    nt = rng.choice([2, 2, 3, 4, 6])
+    val = [100]
+    tasks = []
+    for t in range(nt):
+        l = []
+        for i in range(rng.range(1, 8)):
+            op = rng.weighted([("a", 5), ("g", 3)])
+            val[0] += 1
+            l.append((op, rng.choice(keys), val[0]))
+        tasks.append(l)
+    return dict(keys=keys, kind=kind, setup=setup, tasks=tasks, prob=rng.choice([60, 120, 180, 230]), seed=rng.next() & 0xffffffff)
+
+
+MICRO_CORPUS = [
+    # two inserters of the same key racing for the same gap; a getter in between; a colliding neighbour (constant hash)
+    dict(keys=[1, 2], kind=1, setup=[("g", 1, 0), ("g", 2, 0)], tasks=[[("a", 1, 101)], [("a", 1, 102)], [("g", 1, 103), ("a", 2, 104)]], prob=255, seed=7),
+    dict(keys=[1, 2, 3], kind=1, setup=[("g", 1, 0), ("a", 2, 52)], tasks=[[("a", 1, 101), ("a", 3, 102)], [("a", 3, 103), ("a", 1, 104)], [("g", 3, 0), ("g", 1, 0)]], prob=200, seed=11),
+]
+
+
+MICRO_STATS = dict(cas=0, linked=0, equals=0, switches=0, init_ok=0)
+
+
+def micro_script(c):
+    s = ["N 2 %d" % c["kind"], "h " + " ".join(str(k) for k in c["keys"])]
+    s += [("a %d %d" % (k, v)) if op == "a" else ("g %d" % k) for (op, k, v) in c["setup"]]
+    s += ["D", "c"]
+    for t, l in enumerate(c["tasks"]):
+        for (op, k, v) in l:
+            s.append("t %d %s %d %d" % (t, op, k, v))
+    s.append("G %d 0 %d" % (c["prob"], c["seed"]))
+    s.append("D")
+    return s
+
+
+def run_micro(exe, drv, c, env, timeout=90):
+    """-> (mismatch description or None, oracle reason or None, number of schedule events)"""
+    rc, out, err = core.run_lines(exe, micro_script(c) + ["Q"], timeout=timeout, env=env)
+    ns = len(c["setup"])
+    if len(out) < 4 + ns or any(l == "TIMEOUT" for l in out):
+        return "the real code crashed or hung", "insert-only run crashed or hung", 0
+    hv = dict(zip(c["keys"], [int(x) for x in out[2].split()[1:]]))
+    setup_out = out[3:3 + ns]
+    dumps = [l for l in out if l.startswith("D ")]
+    ev = [l.split() for l in out if l.startswith("E ")]
+    sl = [l for l in out if l.startswith("S")]
+    nev = sum(len(l) for l in c["tasks"])
+    if len(dumps) != 2 or len(ev) != nev or not sl:
+        return "the real code crashed or hung", "insert-only run crashed or hung", 0
+    init = dumps[0].split("|")[1].split()
+    if any(x.endswith("!") for x in init + dumps[1].split("|")[1].split()):
+        return "marked node in an insert-only run", "a node is marked although nothing was deleted", 0
+    sos = [int(x.split(":")[0]) for x in init]
+    iks = [int(x.split(":")[1]) for x in init]
+
+    def start_of(k):
+        b = (hv[k] & M63) % 2
+        for i, (so, key) in enumerate(zip(sos, iks)):
+            if so == rev64(b) and key == 0:
+                return i
+        return None
+    ms = ["S " + " ".join("%d %d" % (k, rev64((hv[k] & M63) | (1 << 63))) for k in c["keys"]),
+          "L " + " ".join(init)]
+    nt = 0
+    for t, l in enumerate(c["tasks"]):
+        if l:
+            nt = t + 1
+        for (op, k, v) in l:
+            st = start_of(k)
+            if st is None:
+                return "bucket of key %d not initialised by the set-up" % k, None, 0
+            ms.append("P %d %s %d %d %d" % (t, op, k, v, st))
+    # the precondition of the Coq theorems (micro_init_general), evaluated on the real dump
+    vals_sof = {k: rev64((hv[k] & M63) | (1 << 63)) for k in c["keys"]}
+    okinit = bool(init) and all(sos[i] <= sos[i + 1] for i in range(len(sos) - 1)) and \
+        all(k == 0 or (k in vals_sof and so == vals_sof[k]) for so, k in zip(sos, iks)) and \
+        len([k for k in iks if k]) == len(set(k for k in iks if k)) and \
+        all(sos[start_of(k)] < vals_sof[k] and k != 0 for l in c["tasks"] for (op, k, v) in l)
+    if okinit:
+        MICRO_STATS["init_ok"] += 1
+    else:
+        return "initial state violates init_ok (precondition of the micro-step theorems): %s" % dumps[0][:300], None, 0
+    ms.append("B %d" % nt)
+    events = [tuple(map(int, x.split(":"))) for x in sl[0].split()[1:]]
+    MICRO_STATS["cas"] += sum(1 for (t, kd) in events if kd == 1)
+    MICRO_STATS["linked"] += len(dumps[1].split("|")[1].split()) - len(init)
+    MICRO_STATS["equals"] += sum(1 for (t, kd) in events if kd == 4)
+    MICRO_STATS["switches"] += sum(1 for i in range(1, len(events)) if events[i][0] != events[i - 1][0])
+    for (t, kd) in events:
+        ms.append("X %d" % t)
+    ms.append("D")
+    for t in range(nt):
+        ms.append("R %d" % t)
+    rc2, mo, merr = core.run_lines(drv, ms, timeout=timeout)
+    base = 2 + sum(len(l) for l in c["tasks"]) + 1
+    mism = None
+    xs = mo[base:base + len(events)]
+    for i, ((t, kd), x) in enumerate(zip(events, xs)):
+        if x != "x %d" % kd:
+            mism = "schedule point %d: task %d arrives at kind %d in the real code, the machine says '%s'" % (i, t, kd, x)
+            break
+    if mism is None and len(mo) >= base + len(events) + 1 + nt:
+        md = mo[base + len(events)]
+        if md.split("|")[1].split() != dumps[1].split("|")[1].split():
+            mism = "final list differs: impl %s model %s" % (dumps[1][:300], md[:300])
+        for t in range(nt):
+            mr = mo[base + len(events) + 1 + t].split()[1:]
+            ir = [e[6] for e in ev if int(e[1]) == t]
+            if mism is None and mr != ir:
+                mism = "results of task %d differ: impl %s model %s" % (t, ir, mr)
+    elif mism is None:
+        mism = "model driver output truncated"
+    # oracle on the implementation's own behaviour: per-key linearizability, set-up ops as a sequential prefix
+    why = None
+    byk = {}
+    stamp = -2 * ns - 2
+    for (op, k, v), o in zip(c["setup"], setup_out):
+        byk.setdefault(k, []).append((stamp, stamp + 1, op, v, int(o.split()[1])))
+        stamp += 2
+    last = 0
+    for e in ev:
+        op, k, v, ret, inv, res = e[3], int(e[4]), int(e[5]), int(e[6]), int(e[7]), int(e[8])
+        byk.setdefault(k, []).append((inv, res, op, v, ret))
+        last = max(last, res)
+    fin = {}
+    for x in dumps[1].split("|")[1].split():
+        so, k, v = (int(y) for y in x.split(":"))
+        if k:
+            if k in fin:
+                why = "key %d is in the list twice" % k
+            fin[k] = v
+    for k, h in byk.items():
+        h.append((last + 1, last + 2, "g", 0, fin.get(k, 0)))
+        if why is None and not lin_check_key(h):
+            why = "non-linearizable insert-only history on key %d: %s" % (k, sorted(h)[:12])
+    return mism, why, len(events)
+
+
+# ----------------------------------------------------------------------------------------------------------------
 def _t(ctx, what):
     if os.environ.get("VERIF_DEBUG"):
         import sys, time
@@ -578,6 +743,23 @@ def run(ctx):
                 conc_bad.append((conc_class(c), (ns, nw, spin), c, k, h))
         _t(ctx, "M4 config %dx%d done" % (ns, nw))
     _t(ctx, "M4 ran")
+    # ---------------- M3: insert-only class against the micro-step machine ----------------
+    mdrv = ctx.model_driver("c16m_driver")
+    r3 = rng.fork()
+    micro_runs = 0
+    micro_events = 0
+    micro_mism = []
+    for j in range(len(MICRO_CORPUS) + (120 if quick else 1500)):
+        c = MICRO_CORPUS[j] if j < len(MICRO_CORPUS) else gen_micro(r3)
+        mism, why, nevts = run_micro(exe, mdrv, c, env11)
+        micro_runs += 1
+        micro_events += nevts
+        if mism:
+            micro_mism.append((mism, c))
+            mismatches.append(("micro-step machine (Dict/Micro.v): " + mism, dict(case=c, script=micro_script(c))))
+        if why:
+            oracle_fail.append((why, dict(case=c, script=micro_script(c))))
+    _t(ctx, "M3 ran")
     # ---------------- verdict ----------------
     corpus_reproduced = sorted(set(conc_class(c) for (sig, cfg, c, k, h) in conc_bad if c in CONC_CORPUS))
     ctx.cov.update(
@@ -590,6 +772,9 @@ def run(ctx):
         concurrent=dict(runs=conc_runs, operations=conc_ops, workloads=wl_hist, configs=[list(x) for x in configs],
                         corpus_witnesses_reproduced=corpus_reproduced,
                         non_linearizable_histories=len(conc_bad), classes=sorted(set(b[0] for b in conc_bad)), died=len(conc_dead)),
+        micro_step_replay=dict(runs=micro_runs, schedule_points_replayed=micro_events, mismatches=len(micro_mism), task_switches=MICRO_STATS["switches"],
+                               cas_attempts=MICRO_STATS["cas"], cas_failed_and_researched=MICRO_STATS["cas"] - MICRO_STATS["linked"], equals_callbacks=MICRO_STATS["equals"],
+                               initial_states_satisfying_init_ok=MICRO_STATS["init_ok"]),
         refuted_on_current_tree=["null_value_put_refuted", "null_key_put_refuted"])
     ctx.assumptions += ["sequential consistency; CAS/fetch-add atomic (C18)", "user hash/equals are pure functions, equals decides identity of keys",
                         "keys and values non-NULL (the refuted variants show what happens otherwise)"]
